@@ -405,6 +405,10 @@ fn gen_valid_op(src: &mut Src, m: &Forest, small: bool, ctx: &mut Ctx) -> Option
     }
 }
 
+pub fn gen_valid_op_pub(src: &mut Src, m: &Forest, small: bool, ctx: &mut Ctx) -> Option<Op> {
+    gen_valid_op(src, m, small, ctx)
+}
+
 /// what the model says the call does; None = the call is expected to return Err / None unchanged
 pub fn apply_model(m: &mut Forest, op: &Op) -> Effect {
     use Op::*;
